@@ -82,6 +82,12 @@ func signedIndexRule(c *Ctx, rule, rel string, pick func(recv, meth string) bool
 				}
 				if lower && upper {
 					r.OK(rule, key, P.Rel(ins.Pos()), "lower and upper guard dominate the index", got, true)
+				} else if st, why := e3IndexVerdict(P, fn, ins); st == guards.Proved {
+					// the matcher reads one way of writing the guards; the facts engine (E3, context-free analysis of
+					// the method: the parameters are arbitrary) decides the same obligation whatever its shape
+					r.OK(rule, key, P.Rel(ins.Pos()), "lower and upper guard dominate the index", "E3: "+why, true)
+				} else if st == guards.Unsupported {
+					r.Unknown(rule, key, P.Rel(ins.Pos()), "lower and upper guard dominate the index", "E3: "+why)
 				} else {
 					miss := []string{}
 					if !lower {
@@ -437,4 +443,23 @@ func describeBase(v ssa.Value) string {
 
 func typeShort(t types.Type) string {
 	return types.TypeString(t, func(*types.Package) string { return "" })
+}
+
+// e3IndexVerdict: the status of the index obligation of instruction ins in fn according to the facts engine, with fn
+// analysed as a root (nothing assumed about its parameters).
+func e3IndexVerdict(P *load.Program, fn *ssa.Function, ins ssa.Instruction) (guards.Status, string) {
+	e := guardsEngine(P)
+	wasRoot := e.Roots[fn]
+	e.Roots[fn] = true
+	defer func() {
+		if !wasRoot {
+			delete(e.Roots, fn)
+		}
+	}()
+	for _, o := range e.Obligations(fn) {
+		if o.Instr == ins && o.Kind == "index" {
+			return o.Status, o.Why
+		}
+	}
+	return guards.Failed, "no obligation found for the index"
 }
